@@ -12,6 +12,7 @@ CONSTANTS
   PtrLookups <- MCPtrLookups
   KeepADOnStrippedFallback = FALSE
   ZeroNegTtlIgnored = FALSE
+  AllBadNetsOpen = FALSE
 INIT Init
 NEXT Next
 INVARIANTS TypeOK SynthOnlyWhenAllowed NeverOverFailure NoLookupOverFailure NeverAD TtlMin WellKnownSkipsExcludedV4 SynthExact OwnerAfterChain GatesPassThrough PtrOnlyWhenAllowed
